@@ -282,11 +282,106 @@ def _execute(case, seed):
     return viol, obs
 
 
+# ------------------------------------------------------------------ intact shares beyond the servers asked first
+SPREAD_S, SPREAD_N = 10, 6
+
+
+def spread_prepare(fmt, seed):
+    key = ("spread", fmt, seed)
+    if key in _PREP:
+        return _PREP[key]
+    boot.urandom.reset(seed, b"c10-spread")
+    ms.reset_clock()
+    g = grid.Grid(SPREAD_S, client_kw=dict(k=K, n=SPREAD_N, happy=1))
+    try:
+        data = pattern(10 * seed + 3, 30)
+        b = lib_mut.create(g, fmt, data)
+        assert b and b[0][0] == "ok", b
+        node = b[0][1]
+        g.quiesce()
+        si = node.get_storage_index()
+        blobs = {sh: blob for (sv, sh), blob in ms.slots_of(g.save_disk(), si).items()}
+        assert sorted(blobs) == list(range(SPREAD_N))
+        out = {"si": si, "data": data, "blobs": blobs, "cap": {"ro": node.get_readonly_uri(), "rw": node.get_uri()}}
+    finally:
+        g.close()
+    boot.take_logged()
+    boot.R.take_errors()
+    _PREP[key] = out
+    return out
+
+
+def execute_spread(case, seed):
+    """2-of-6 on 10 servers, share number i at position place[i] of the reader's permuted server list, the
+    first `nbad` share numbers damaged where only the retrieve can see it (one block byte).  A fresh client
+    (read-cap / write-cap) reads: with >= k intact shares on answering servers the read must succeed."""
+    fmt, place, nbad, cap = case["fmt"], case["place"], case["nbad"], case["cap"]
+    prep = spread_prepare(fmt, seed)
+    boot.urandom.reset(seed, b"c10-spread-exec")
+    ms.reset_clock()
+    g = grid.Grid(SPREAD_S, nclients=2, client_kw=dict(k=K, n=SPREAD_N, happy=1))
+    g.sched.batch = bool(case.get("batch"))
+    viol, obs = [], {"outcomes": []}
+    ms.bound_pending(g)
+    try:
+        si = prep["si"]
+        perm = [g.ids.index(s_.get_serverid()) for s_ in g.clients[1].storage_broker.get_servers_for_psi(si)]
+        for sh, pos in enumerate(place):
+            blob = prep["blobs"][sh]
+            if sh < nbad:
+                d = ms.share_data(blob)
+                f = ms.fields(d)
+                last = max(int(nm[5:]) for nm in f if nm.startswith("block") and nm[5:].isdigit())
+                blob = ms.container(blob, ms.flip(d, f["block%d" % last][0] + 1))
+            ms.write_share(g, si, perm[pos], sh, ms.rehome(blob, perm[pos], prep["cap"]["rw"]))
+        node = g.clients[1].create_node_from_uri(prep["cap"][cap])
+        try:
+            b = lib_mut.download(g, node)
+        except grid.HarnessError as e:
+            b = None
+            viol.append(("read-livelock", str(e)[:200]))
+        intact = SPREAD_N - nbad
+        desc = "%s 2-of-6 on 10 servers, shares at positions %r of the permuted list, shares 0..%d damaged in their last block, fresh %s-cap reader" % (fmt, place, nbad - 1, cap)
+        if b is None:
+            pass
+        elif not b:
+            obs["outcomes"].append("hang")
+            viol.append(("read-never-completes", desc))
+        elif b[0][0] == "ok":
+            obs["outcomes"].append("ok")
+            if b[0][1] != prep["data"]:
+                viol.append(("wrong-bytes", "%s: read returned %d bytes that were never published" % (desc, len(b[0][1]))))
+        else:
+            name = lib_imm.failure_name(b[0][1])
+            obs["outcomes"].append("err:" + name)
+            if intact >= K:
+                viol.append(("read-failed-with-k-intact-shares-beyond-first-servers:" + name, "%s: %d intact shares sit on answering servers, yet the read fails: %s" % (desc, intact, b[0][1].getErrorMessage()[:160])))
+        obs["events"] = len(g.sched.log)
+        obs["logged"] = sorted(set(type(f_.value).__name__ for (why, f_) in boot.take_logged()))
+        boot.R.take_errors()
+    finally:
+        g.close()
+    return viol, obs
+
+
+def spread_damage_cases(tier):
+    out = []
+    places = list(itertools.combinations(range(SPREAD_S), SPREAD_N))
+    if tier == "quick":
+        places = places[::6]
+    for fmt in ("SDMF", "MDMF"):
+        for place in places:
+            for nbad in (1, 2, 3, 4):
+                for cap in ("ro", "rw"):
+                    out.append({"fmt": fmt, "place": list(place), "nbad": nbad, "cap": cap, "cls": "spread-damage"})
+    return out
+
+
 def chunk(cases, seed):
     res = common.Result()
     gc.freeze()      # forked worker: keep the collector off the pages inherited from the parent
     for case in cases:
-        viol, obs = execute(case, seed)
+        viol, obs = (execute_spread if case.get("cls") == "spread-damage" else execute)(case, seed)
         if obs.get("skipped"):
             res.count("skipped_identical_or_incompatible")
             continue
@@ -470,7 +565,7 @@ def replay(case):
     if "op" in case:
         r = readonly_cannot_publish(boot.SEED)
         return [(v["sig"], v["msg"]) for v in r.violations]
-    viol, obs = execute(case["case"], boot.SEED)
+    viol, obs = (execute_spread if case["case"].get("cls") == "spread-damage" else execute)(case["case"], boot.SEED)
     return viol
 
 
@@ -504,6 +599,10 @@ def run(tier, seed):
     cases = [c for c in cases if sum(1 for s in c["slots"].values() if s[0] != "missing") >= 1]
     for fkey in sorted(set(c["fkey"] for c in cases)):
         prepare(fkey, seed)            # in the parent: forked workers inherit the captured shares
+    for fmt in ("SDMF", "MDMF"):
+        spread_prepare(fmt, seed)
+    sp = spread_damage_cases(tier)
+    cases += sp + [dict(c, batch=True) for c in sp[::4]]
     res = common.pmap(chunk, cases, (seed,), chunks=max(1, min(len(cases), common.NWORKERS * 12)))
     res.merge(readonly_cannot_publish(seed))
     execs = res.counts.get("executions", 0)
